@@ -14,7 +14,8 @@ GLM_FUNC_QUALIFIER glm_f32vec4 glm_vec1_sqrt_lowp(glm_f32vec4 x)
 
 GLM_FUNC_QUALIFIER glm_f32vec4 glm_vec4_sqrt_lowp(glm_f32vec4 x)
 {
-	return _mm_mul_ps(_mm_rsqrt_ps(x), x);
+	// rsqrt(0) is infinity: mask the product so that sqrt(0) is 0 instead of NaN
+	return _mm_and_ps(_mm_mul_ps(_mm_rsqrt_ps(x), x), _mm_cmpneq_ps(x, _mm_setzero_ps()));
 }
 
 #endif//GLM_ARCH & GLM_ARCH_SSE2_BIT
